@@ -61,25 +61,39 @@ class Machine:
         return False
 
     def _relevant(self):
-        rel = set()
+        """ids of the simple statements that decide the tracked state (a backward slice: tracked stores and returns, the
+        temporaries they read, and the temporaries read by the tests they are control-dependent on), at any nesting depth."""
+        from sa.astutil import parent_map
+        pm = parent_map(self.f)
+        simple = [n for n in own_nodes(self.f) if isinstance(n, (ast.Assign, ast.AugAssign, ast.AnnAssign, ast.Return))]
+        rel = {id(n): n for n in simple if isinstance(n, ast.Return) or any(self._tracked_store(t) for t in _stores(n))}
         needed = set()
-        for i, st in enumerate(self.body):
-            if any(isinstance(x, ast.Return) for x in ast.walk(st)) or any(self._tracked_store(t) for t in _stores(st)):
-                rel.add(i)
         changed = True
         while changed:
             changed = False
-            for i in rel:
-                for x in ast.walk(self.body[i]):
-                    if isinstance(x, ast.Name) and isinstance(x.ctx, ast.Load) and x.id not in self.formals and x.id not in needed \
-                            and x.id != self.rowvar and x.id != "self":
+            for n in list(rel.values()):
+                reads = [x for x in ast.walk(n) if isinstance(x, ast.Name) and isinstance(x.ctx, ast.Load)]
+                cur = pm.get(n)
+                while cur is not None and cur is not self.f:
+                    if isinstance(cur, (ast.If, ast.While)):
+                        reads += [x for x in ast.walk(cur.test) if isinstance(x, ast.Name) and isinstance(x.ctx, ast.Load)]
+                    cur = pm.get(cur)
+                for x in reads:
+                    if x.id not in self.formals and x.id not in needed and x.id not in (self.rowvar, "self"):
                         needed.add(x.id)
                         changed = True
-            for i, st in enumerate(self.body):
-                if i not in rel and any(isinstance(t, ast.Name) and t.id in needed for t in _stores(st)):
-                    rel.add(i)
+            for n in simple:
+                if id(n) not in rel and any(isinstance(t, ast.Name) and t.id in needed for t in _stores(n)):
+                    rel[id(n)] = n
                     changed = True
-        return rel
+        out = set(rel)
+        # compound statements containing a relevant statement
+        for n in rel.values():
+            cur = pm.get(n)
+            while cur is not None and cur is not self.f:
+                out.add(id(cur))
+                cur = pm.get(cur)
+        return out
 
     def kind_of(self, e):
         """'es' / 'rlr' for a comparison of the validation metric against a reference row under a threshold, else None."""
@@ -120,6 +134,8 @@ class Machine:
                     self.pred_nodes[e] = k
                     return preds[k]
             if isinstance(e, ast.Name):
+                if e.id == rowvar:
+                    return row  # the row itself (`if info is None: raise`)
                 if e.id in env:
                     if env[e.id] is _UNK:
                         raise Und(f"`{e.id}` is not in the interpreted fragment")
@@ -135,6 +151,10 @@ class Machine:
                     raise Und(f"row key {e.slice.value!r}")
                 if e.slice.value == self.metric and ref is not None:
                     return ref
+                if e.slice.value == "lr":
+                    # the optimizer's current rate: deliberately NOT the recorded one ("just assume that the user knows what's
+                    # what if the optimizer's lr doesn't match"), so that a rate derived from it shows up as a different write
+                    return Fraction(7, 10)
                 raise Und(u(e)[:40])
             if isinstance(e, ast.Attribute) and u(e.value) == "self.params":
                 if e.attr in P:
@@ -205,10 +225,21 @@ class Machine:
 
         def ex(stmts, top=False):
             for i, st in enumerate(stmts):
-                if top and i not in self.relevant:
+                if id(st) not in self.relevant:
                     continue
                 if isinstance(st, ast.If):
-                    ex(st.body if ev(st.test) else st.orelse)
+                    try:
+                        arm = st.body if ev(st.test) else st.orelse
+                    except Und:
+                        # an argument check outside the fragment (`if <something about kwargs>: raise ...`): the table is
+                        # about calls that pass validation, so the arm that does not raise is taken
+                        if _raises(st.body) and not _raises(st.orelse):
+                            arm = st.orelse
+                        elif st.orelse and _raises(st.orelse) and not _raises(st.body):
+                            arm = st.body
+                        else:
+                            raise
+                    ex(arm)
                 elif isinstance(st, ast.Assign):
                     simple = all(isinstance(t, ast.Name) for t in st.targets)
                     try:
@@ -251,6 +282,10 @@ class Machine:
         except _Ret as r:
             ret = r.v
         return row, ret, events
+
+
+def _raises(body) -> bool:
+    return bool(body) and isinstance(body[-1], ast.Raise)
 
 
 def _as_load(t):
@@ -370,7 +405,7 @@ def _eval_pred(m, node, row, P, ref, val):
     holder = {}
     f = ast.FunctionDef(name="_p", args=m.f.args, body=[ast.Return(value=node)], decorator_list=[], lineno=node.lineno, col_offset=0)
     saved_body, saved_rel = m.body, m.relevant
-    m.body, m.relevant = [f.body[0]], {0}
+    m.body, m.relevant = [f.body[0]], {id(f.body[0])}
     try:
         return m.run(dict(row), None, P, 3, ref=ref, val=val)[1]
     finally:
